@@ -63,10 +63,12 @@ def sdlMig : DataMig SDL.Db where
     | none => (db, ⟨true, none, .other⟩)
     | some next => ((SDL.migrate db next s).1, sdlRet (SDL.migrate db next s).2)
 
-/-- blocktransactions: `(shouldNotRerun, nil)` / `(shouldRerun = []byte{}, nil)` / `(shouldRerun, err)`. -/
+/-- blocktransactions: `(shouldNotRerun, nil)` / `(shouldRerun = []byte{}, nil)` / `(shouldRerun, err)` /
+`(shouldNotRerun, err)` (only when `clearOldBuckets` fails after the back-fill). -/
 def btRet : BlockTx.Ret → MigStep
   | .done => ⟨false, none, .none⟩
   | .rerun => ⟨false, some [], .none⟩
+  | .failedNil => ⟨false, none, .other⟩
   | _ => ⟨false, some [], .other⟩
 
 /-- blocktransactions: `Before` ignores the token. -/
